@@ -452,6 +452,10 @@ class AddressType(OctetStringType):
                                         "correspond to a valid IPv6 address "\
                                         "format")
 
+            else:
+                raise DataTypeError("Stream of bytes does not start with "\
+                                    "the IPv4 or IPv6 address family code")
+
         else:
             ip_address = ipaddress.ip_address(data)
     
